@@ -106,6 +106,66 @@ impl<'a> Gen<'a> {
             _ => self.some_key(),
         }
     }
+    /// wide branches: capacity >= 16 with enough leaves under one branch that it holds more than 16 separators, every
+    /// stored key (so every separator value) sent through each kind of call, then a drain from one end
+    pub fn wide(&mut self, case: usize) {
+        let g = self;
+        // wide branches: capacity > 16 with enough leaves under one branch that it holds more than 16 separators,
+        // then every stored key (so every separator value) goes through each kind of call
+        (g.exec)("R drop".into());
+        g.cap = [16, 16, 17, 18, 20, 33][g.rng.below(6) as usize];
+        g.universe = (g.cap as i64) * 60;
+        g.base = 0;
+        g.present.clear();
+        g.removed.clear();
+        let c = g.cap;
+        (g.exec)(format!("R new {}", c));
+        let n = g.cap * (19 + g.rng.below(8) as usize);
+        let ascending = g.rng.chance(50);
+        for i in 0..n {
+            let k = if ascending { (i as i64) * 2 } else { g.base + g.rng.range(0, g.universe) };
+            g.insert(k);
+        }
+        (g.exec)("R dump".into());
+        let keys: Vec<i64> = g.present.iter().copied().collect();
+        for (i, k) in keys.iter().enumerate() {
+            match (i + case) % 5 {
+                0 => {
+                    (g.exec)(format!("R get {}", k));
+                }
+                1 => {
+                    (g.exec)(format!("R contains {}", k));
+                }
+                2 => {
+                    g.val += 1;
+                    let v = g.val;
+                    (g.exec)(format!("R getmut {} {}", k, v));
+                }
+                3 => g.insert(*k),
+                _ => {
+                    g.remove(*k);
+                    (g.exec)(format!("R get {}", k));
+                }
+            }
+        }
+        (g.exec)("R dump".into());
+        (g.exec)("R len".into());
+        // drain most of it from one end (leaf merges, then branch borrows and branch MERGES at this capacity),
+        // looking at the arenas on the way
+        let keys: Vec<i64> = g.present.iter().copied().collect();
+        let from_top = g.rng.chance(50);
+        let n = keys.len() * 4 / 5;
+        for i in 0..n {
+            let k = if from_top { keys[keys.len() - 1 - i] } else { keys[i] };
+            g.remove(k);
+            if i % 16 == 15 {
+                (g.exec)("R dump".into());
+                (g.exec)("R counts".into());
+            }
+        }
+        (g.exec)("R dump".into());
+        (g.exec)("R check".into());
+    }
     /// a burst of mutations with one of several key patterns
     pub fn mutate(&mut self, steps: usize, grow_bias: u64, dump_every: usize) {
         let pattern = self.rng.below(6);
@@ -200,61 +260,7 @@ pub fn gen_ops(rng: &mut Rng, len: usize, exec: &mut dyn FnMut(String) -> String
     let dump_every = if big { 16 } else { 1 };
     let mut done = 0;
     if case % 11 == 5 {
-        // wide branches: capacity > 16 with enough leaves under one branch that it holds more than 16 separators,
-        // then every stored key (so every separator value) goes through each kind of call
-        (g.exec)("R drop".into());
-        g.cap = [16, 16, 17, 18, 20, 33][g.rng.below(6) as usize];
-        g.universe = (g.cap as i64) * 60;
-        g.base = 0;
-        g.present.clear();
-        g.removed.clear();
-        let c = g.cap;
-        (g.exec)(format!("R new {}", c));
-        let n = g.cap * (19 + g.rng.below(8) as usize);
-        let ascending = g.rng.chance(50);
-        for i in 0..n {
-            let k = if ascending { (i as i64) * 2 } else { g.base + g.rng.range(0, g.universe) };
-            g.insert(k);
-        }
-        (g.exec)("R dump".into());
-        let keys: Vec<i64> = g.present.iter().copied().collect();
-        for (i, k) in keys.iter().enumerate() {
-            match (i + case) % 5 {
-                0 => {
-                    (g.exec)(format!("R get {}", k));
-                }
-                1 => {
-                    (g.exec)(format!("R contains {}", k));
-                }
-                2 => {
-                    g.val += 1;
-                    let v = g.val;
-                    (g.exec)(format!("R getmut {} {}", k, v));
-                }
-                3 => g.insert(*k),
-                _ => {
-                    g.remove(*k);
-                    (g.exec)(format!("R get {}", k));
-                }
-            }
-        }
-        (g.exec)("R dump".into());
-        (g.exec)("R len".into());
-        // drain most of it from one end (leaf merges, then branch borrows and branch MERGES at this capacity),
-        // looking at the arenas on the way
-        let keys: Vec<i64> = g.present.iter().copied().collect();
-        let from_top = g.rng.chance(50);
-        let n = keys.len() * 4 / 5;
-        for i in 0..n {
-            let k = if from_top { keys[keys.len() - 1 - i] } else { keys[i] };
-            g.remove(k);
-            if i % 16 == 15 {
-                (g.exec)("R dump".into());
-                (g.exec)("R counts".into());
-            }
-        }
-        (g.exec)("R dump".into());
-        (g.exec)("R check".into());
+        g.wide(case);
         done = len / 2;
     }
     while done < len {
@@ -325,6 +331,12 @@ pub fn gen_ops(rng: &mut Rng, len: usize, exec: &mut dyn FnMut(String) -> String
 pub fn gen_iter(rng: &mut Rng, len: usize, exec: &mut dyn FnMut(String) -> String, case: usize) {
     let mut g = Gen::new(rng, exec);
     g.start(case % 4 != 0);
+    if case % 11 == 5 {
+        g.wide(case);
+        for op in ["items", "itemsfast", "keys", "values", "first", "last"] {
+            (g.exec)(format!("R {}", op));
+        }
+    }
     let rounds = 3 + g.rng.below(4) as usize;
     for r in 0..rounds {
         let bias = if r % 2 == 0 { 85 } else { 30 };
@@ -397,6 +409,9 @@ fn positioned_calls(g: &mut Gen, d: &DumpInfo, prefix: &str, n: usize) {
 pub fn gen_range(rng: &mut Rng, len: usize, exec: &mut dyn FnMut(String) -> String, case: usize) {
     let mut g = Gen::new(rng, exec);
     g.start(case % 4 != 0);
+    if case % 11 == 5 {
+        g.wide(case);
+    }
     let rounds = 2 + g.rng.below(3) as usize;
     for r in 0..rounds {
         let bias = if r % 2 == 0 { 80 } else { 35 };
@@ -449,6 +464,45 @@ pub fn gen_api(rng: &mut Rng, len: usize, exec: &mut dyn FnMut(String) -> String
     }
     let mut g = Gen::new(rng, exec);
     g.start(case % 3 != 0);
+    if case % 11 == 5 {
+        // the checked calls on a map with wide branches, every stored key (every separator value) in turn
+        (g.exec)("R drop".into());
+        g.cap = [17, 20, 33][g.rng.below(3) as usize];
+        g.universe = (g.cap as i64) * 60;
+        g.base = 0;
+        g.present.clear();
+        g.removed.clear();
+        let c = g.cap;
+        (g.exec)(format!("R new {}", c));
+        let n = g.cap * (19 + g.rng.below(6) as usize);
+        for i in 0..n {
+            g.insert((i as i64) * 2);
+        }
+        let keys: Vec<i64> = g.present.iter().copied().collect();
+        for (i, k) in keys.iter().enumerate() {
+            match (i + case) % 4 {
+                0 => {
+                    g.serial += 1;
+                    g.val += 1;
+                    let (s, v) = (g.serial, g.val);
+                    (g.exec)(format!("R tryinsert {}#{} {}", k, s, v));
+                }
+                1 => {
+                    (g.exec)(format!("R tryremove {}", k));
+                    g.present.remove(k);
+                }
+                2 => {
+                    (g.exec)(format!("R removeitem {}", k));
+                    g.present.remove(k);
+                }
+                _ => {
+                    (g.exec)(format!("R tryget {}", k));
+                }
+            }
+        }
+        (g.exec)("R validateop".into());
+        (g.exec)("R dump".into());
+    }
     for i in 0..len {
         let k = if g.rng.chance(55) { g.present_key().unwrap_or(3) } else { g.some_key() };
         match g.rng.below(14) {
